@@ -613,10 +613,9 @@ func (sm *Subscriptions) When(states S, ctx context.Context) <-chan struct{} {
 	// insert the binding
 	for _, s := range states {
 		sm.when[s] = append(sm.when[s], binding)
-
-		if ctx != nil {
-			sm.whenCtx[ctx] = append(sm.whenCtx[ctx], binding)
-		}
+	}
+	if ctx != nil {
+		sm.whenCtx[ctx] = append(sm.whenCtx[ctx], binding)
 	}
 
 	return ch
